@@ -19,6 +19,7 @@ def sXFPort : Bytes := [120, 45, 102, 111, 114, 119, 97, 114, 100, 101, 100, 45,
 def sXFFor : Bytes := [120, 45, 102, 111, 114, 119, 97, 114, 100, 101, 100, 45, 102, 111, 114]  -- 'x-forwarded-for'
 def sXRealIp : Bytes := [120, 45, 114, 101, 97, 108, 45, 105, 112]  -- 'x-real-ip'
 def sForwarded : Bytes := [102, 111, 114, 119, 97, 114, 100, 101, 100]  -- 'forwarded'
+def sUserAgent : Bytes := [117, 115, 101, 114, 45, 97, 103, 101, 110, 116]  -- 'user-agent'
 def sXRequestId : Bytes := [120, 45, 114, 101, 113, 117, 101, 115, 116, 45, 105, 100]  -- 'x-request-id'
 def cXFFor : Bytes := [88, 45, 70, 111, 114, 119, 97, 114, 100, 101, 100, 45, 70, 111, 114]  -- 'X-Forwarded-For'
 def cForwarded : Bytes := [70, 111, 114, 119, 97, 114, 100, 101, 100]  -- 'Forwarded'
@@ -91,16 +92,27 @@ def appendVal (suffix : Bytes) : Field → Field
   | .hdr k v => .hdr k (v ++ suffix)
   | .cookies => .cookies
 
+/-- names matched by a branch of the block walk that leaves the header in place
+    (before the `X-Request-Id` and correlation-header branches) -/
+def keptByWalk (k : Bytes) : Bool :=
+  eqNoCase k sXFProto || eqNoCase k sXFPort || eqNoCase k sXFFor || eqNoCase k sForwarded || eqNoCase k sUserAgent
+
 /-- the block walk of `on_request_headers`: `Connection` rewritten when
-    closing, client `X-Real-IP` removed when eliding -/
-def walkRequest (c : Ctx) : List Field → List Field
-  | [] => []
-  | .cookies :: rest => .cookies :: walkRequest c rest
-  | .hdr k v :: rest =>
+    closing, client `X-Real-IP` removed when eliding, every `X-Request-Id`
+    after the first removed (`seen` = one was already met), a client field
+    named like the correlation header removed -/
+def walkRequest (c : Ctx) : Bool → List Field → List Field
+  | _, [] => []
+  | seen, .cookies :: rest => .cookies :: walkRequest c seen rest
+  | seen, .hdr k v :: rest =>
     if eqNoCase k sConnection then
-      (if c.closing then .hdr k sClose else .hdr k v) :: walkRequest c rest
-    else if eqNoCase k sXRealIp && c.elideXRealIp then walkRequest c rest
-    else .hdr k v :: walkRequest c rest
+      (if c.closing then .hdr k sClose else .hdr k v) :: walkRequest c seen rest
+    else if keptByWalk k then .hdr k v :: walkRequest c seen rest
+    else if eqNoCase k sXRealIp && c.elideXRealIp then walkRequest c seen rest
+    else if eqNoCase k sXRequestId then
+      (if seen then walkRequest c true rest else .hdr k v :: walkRequest c true rest)
+    else if eqNoCase k c.sozuIdHeader then walkRequest c seen rest
+    else .hdr k v :: walkRequest c seen rest
 
 /-- `on_request_headers` on the cookie jar: the sticky cookie is elided -/
 def editJar (c : Ctx) (jar : List Crumb) : List Crumb :=
@@ -122,7 +134,7 @@ def tailAdditions (c : Ctx) (fs0 : List Field) : List Field :=
 
 /-- `HttpContext::on_request_headers` on the header blocks -/
 def editRequest (c : Ctx) (fs : List Field) : List Field :=
-  let walked := walkRequest c fs
+  let walked := walkRequest c false fs
   match c.peer with
   | none => walked ++ tailAdditions c fs
   | some p =>
